@@ -186,6 +186,23 @@ class DAG(nx.DiGraph):
             for index in range(len(nodes)):
                 self.add_node(node=nodes[index], latent=latent[index])
 
+    def remove_node(self, node):
+        """
+        Removes the node `node` and all its edges. If the node was a latent
+        variable it is also removed from `self.latents`.
+        """
+        super(DAG, self).remove_node(node)
+        self.latents = set(self.latents) - {node}
+
+    def remove_nodes_from(self, nodes):
+        """
+        Removes the nodes `nodes` and all their edges; latent ones are also
+        removed from `self.latents`.
+        """
+        nodes = list(nodes)
+        super(DAG, self).remove_nodes_from(nodes)
+        self.latents = set(self.latents) - set(nodes)
+
     def add_edge(self, u, v, weight=None):
         """
         Add an edge between u and v.
